@@ -1,12 +1,30 @@
 """C07 - model checking is a pure function of its arguments.
 Theorems (Properties/C07.v): C07_frame, C07_refine, C07_history (heap model) on top of the exactness
 theorems of the pure Gallina checkers (C01-C03).
-Correspondence: random HISTORIES of modelcheck calls (3 logics x text/object formula x F in {None, [], [sets]})
-over a pool of 4 live Kripke objects and 8 live formula objects.  After every call a deep snapshot (contents
-AND identities) of EVERY pool structure and EVERY pool formula object is compared with the snapshot taken
-before the history; every result is compared with the answer of the extracted model for that call IN
-ISOLATION (the model is a pure function, so any dependence on the history shows as a difference).
-A failing step is re-run in FRESH interpreters and the history is shrunk to a minimal prefix."""
+Correspondence: random HISTORIES over a pool of 4 live Kripke objects and 8 live formula objects.  A quarter of the
+structures is installed with equal label sets sharing ONE set object; in 30% the states are plain objects compared
+by identity (class Site: default address hash, only called with F=None; class SiteH: hashed like the int - see there)
+instead of ints: the model stays on ints, arguments (F, relabelling) and results go through the
+bijection int <-> object BY IDENTITY, and a result element that is not one of the structure's own state objects is a
+violation (the objects are re-created deterministically from the description in every interpreter).  A step is
+  * a modelcheck CALL (3 logics x formula channel x F in {None, [], [sets]} in several container forms), the formula
+    channel being: an object built with constructors | an object of another language module | an object obtained
+    from a parser and kept by the caller | text with the default parser | text with an explicit parser= that is the
+    caller's SHARED parser object, a FRESH parser object, or (CTLS.modelcheck only, formula inside the sub-logic) a
+    shared / fresh parser of the SUB-LOGIC (LTL.Parser() for A g, CTL.Parser() for CTL formulas);
+  * or a RELABEL: the CALLER changes the labelling of a pool structure through the public routes K.labels(s) (live
+    set: add / discard), K.labelling_function() (live dict: add / discard / assign a new set) and
+    K.replace_labelling_function(L) (new dict, optionally with states sharing ONE set object, with omitted states
+    and with an extra key that is not a state).  A relabel is the caller's change, not the library's: the model
+    presentation and the snapshot baseline of that structure are refreshed, and every LATER call must equal the
+    model on the CURRENT labelling (a relabel is usually followed by re-issuing earlier calls on that structure).
+After every call a deep snapshot (contents AND identities) of EVERY pool structure and EVERY pool formula object is
+compared with its baseline; every result is compared with the answer of the extracted model for that call IN
+ISOLATION on the presentation of the structure that is current at that step (the model is a pure function, so any
+dependence on the history shows as a difference).  The model command of a step is produced DURING execution, in
+step order, by the interpreter that executes the step.  A failing step is re-run in FRESH interpreters (which report
+observations and their own model commands, so expectations are re-derived for every candidate) and the history is
+shrunk to a minimal one."""
 from common import *
 from mccheck import *
 LEVEL = 'proof'
@@ -63,9 +81,36 @@ def _leaf(x):
     return repr(x)
 
 
+class Site(object):
+    """a state that is a plain object: default identity __eq__ / __hash__ (the repr is deterministic so that
+    snapshots can be compared; a COPY of a Site prints the same but is another state)"""
+
+    def __init__(self, i):
+        self.i = i
+
+    def __repr__(self):
+        return '%s(%d)' % (type(self).__name__, self.i)
+
+
+class SiteH(Site):
+    """identity __eq__ as well, but hashed by its number: sets and dicts of such states iterate exactly like those of the
+    ints, in every interpreter.  This matters for calls with F=: the library's fair-SCC gate looks only at the FIRST
+    member of an SCC (known defect, C15), so their results depend on the iteration orders inside the internal clone;
+    the model derives those from the caller's structure, which is right for int-like hashes but not for address hashes
+    (a clone's sets of address-hashed objects may iterate in another order than the original's: seen as 3 spurious
+    differences in 62 000 thorough evaluations).  Plain Site states are therefore only used with F=None, where results
+    do not depend on any iteration order (C06)."""
+
+    def __hash__(self):
+        return self.i
+
+
+SITE_CLASS = {'id': Site, True: Site, 'hash': SiteH}
+
+
 def snap_kripke(K):
     """every attribute of the object: identity and contents; dict values (successor sets, label sets)
-    with their own identity"""
+    with their own identity; identities of the state OBJECTS themselves where states are not plain values"""
     out = [('class', type(K).__module__ + '.' + type(K).__name__)]
     for name in sorted(vars(K)):
         v = getattr(K, name)
@@ -73,6 +118,9 @@ def snap_kripke(K):
             out.append((name, id(v), tuple(sorted((repr(k), id(x), _leaf(x)) for k, x in v.items()))))
         else:
             out.append((name, id(v), _leaf(v)))
+    objs = [('node', k) for k in K._next] + [('succ', d) for ds in K._next.values() for d in ds] + \
+           [('label key', k) for k in K._labels] + [('S0', k) for k in K.S0]
+    out.append(('identities of state objects', 0, tuple(sorted('%s %r @%x' % (w, k, id(k)) for w, k in objs if isinstance(k, Site)))))
     return (tuple(out), kripke_snapshot(K))
 
 
@@ -154,6 +202,10 @@ def in_logic(logic, f):
     return {'CTL': is_ctl_state, 'LTL': is_ltl_state, 'CTLS': is_ctls_state}[logic](f)
 
 
+def is_call(st):
+    return st.get('kind', 'call') == 'call'
+
+
 def gen_formula(rng, kind):
     while True:
         if kind == 'CTL':
@@ -178,16 +230,41 @@ def gen_formula(rng, kind):
 def gen_pool(rng):
     structs = [kd_json(rand_kripke(rng, rng.randint(1, 4))) for _ in range(4)]
     kinds = ['CTL', 'CTL', 'LTL', 'LTL', 'CTLS', 'CTLS', 'CTLS', 'ALL']
-    return {'structs': structs, 'formulas': [gen_formula(rng, k) for k in kinds]}
+    # 'alias': the structure is installed with equal label sets SHARING one set object (mccheck.kd_py_aliased)
+    # 'objstates': the states are plain objects compared by identity instead of the ints i (the model stays on ints):
+    # 'id' = Site(i), default address hash, only called with F=None; 'hash' = SiteH(i), hashed like the int i
+    return {'structs': structs, 'formulas': [gen_formula(rng, k) for k in kinds],
+            'alias': [rng.random() < 0.25 for _ in structs],
+            'objstates': [rng.choice(['id', 'hash']) if rng.random() < 0.3 else False for _ in structs]}
 
 
-def gen_F(rng, states):
+def objstates_of(desc, si):
+    return (desc.get('objstates') or [False] * (si + 1))[si]
+
+
+def gen_F(rng, states, objstates=False):
     r = rng.random()
-    if r < 0.5:
+    if r < 0.5 or objstates in ('id', True):
         return None
     if r < 0.62:
         return []
     return [sorted(s for s in states if rng.random() < 0.5) for _ in range(rng.randint(1, 3))]
+
+
+# container forms of the fairness argument: (outer, inner).  Lists as INNER containers are not used: the library
+# evaluates `set(scc) & P`, a TypeError for a list that is raised only if some SCC passes the first gate - nothing
+# the model speaks about.
+FFORMS = {'ls': (list, set), 'lf': (list, frozenset), 'ts': (tuple, set), 'tf': (tuple, frozenset)}
+
+
+def gen_Fform(rng, st):
+    if st['F'] is not None:
+        r = rng.random()
+        if r < 0.3:
+            st['Fform'] = rng.choice(['lf', 'ts', 'tf'])
+        if rng.random() < 0.3:
+            st['Fshared'] = True       # the caller passes ONE container object to every call with this F
+    return st
 
 
 def gen_step(rng, desc, p_text, p_textp):
@@ -198,15 +275,20 @@ def gen_step(rng, desc, p_text, p_textp):
     if rng.random() < 0.04:
         bad = [l for l in LOGICS if l not in ok]
         if bad:      # out-of-logic object: documented TypeError, must be just as pure
-            return {'logic': rng.choice(bad), 's': si, 'f': fi, 'mode': 'obj:CTLS',
-                    'F': gen_F(rng, desc['structs'][si]['S'])}
+            return gen_Fform(rng, {'logic': rng.choice(bad), 's': si, 'f': fi, 'mode': 'obj:CTLS',
+                                   'F': gen_F(rng, desc['structs'][si]['S'], objstates_of(desc, si))})
     logic = rng.choice(ok)
-    F = gen_F(rng, desc['structs'][si]['S'])
+    F = gen_F(rng, desc['structs'][si]['S'], objstates_of(desc, si))
     r = rng.random()
     if r < p_text:
         mode = 'text'
     elif r < p_text + p_textp:
-        mode = 'textp'
+        mode = rng.choice(['textp', 'textn'])
+        # CTLS.modelcheck with the parser of a SUB-LOGIC the formula belongs to (the objects it yields are objects of
+        # that language module, which CTLS.modelcheck accepts); F is None as for the obj:CTL / obj:LTL channel
+        sub = [l for l in ('CTL', 'LTL') if l in ok]
+        if logic == 'CTLS' and F is None and sub and rng.random() < 0.5:
+            mode = rng.choice(['textsub:', 'textsubp:']) + rng.choice(sub)
     else:
         mode = 'obj'
         x = rng.random()
@@ -218,18 +300,132 @@ def gen_step(rng, desc, p_text, p_textp):
             other = [l for l in ('CTL', 'LTL') if l in ok]
             if other:
                 mode = 'obj:' + rng.choice(other)
-    return {'logic': logic, 's': si, 'f': fi, 'mode': mode, 'F': F}
+        elif x < 0.24:
+            mode = 'pobj'      # the object the caller got from a parser of the called logic (and keeps)
+    return gen_Fform(rng, {'logic': logic, 's': si, 'f': fi, 'mode': mode, 'F': F})
 
 
-def gen_history(rng, desc, maxlen, p_text, p_textp):
+# ---- relabel steps ------------------------------------------------------------------------
+EXTRA_KEY = 10 ** 6 + 7          # a key of the caller's labelling dict that is not a state
+ATOMS = ('p', 'q')
+
+
+class SimK:
+    """plain-Python stand-in for the label API of a Kripke object (a dict of sets, with the same aliasing): the
+    generator tracks the current labelling with it so that relabel steps are effective"""
+
+    def __init__(self, states, L, aliased=False):
+        self.S = list(states)
+        self.L = {s: set(L.get(s, ())) for s in self.S}
+        if aliased:
+            groups = {}
+            self.L = {s: groups.setdefault(frozenset(v), v) for s, v in self.L.items()}
+
+    def labels(self, s):
+        return self.L[s]
+
+    def labelling_function(self):
+        return self.L
+
+    def replace_labelling_function(self, L):
+        old, self.L = self.L, L
+        for s in self.S:
+            L.setdefault(s, set())
+        return old
+
+
+def build_L(st, state=lambda i: i):
+    """the caller's new labelling dict of a 'replace' step (`state`: int of the description -> state of the structure)"""
+    groups, L = {}, {}
+    items = [(state(k), list(v)) for k, v in st['L']]
+    if st.get('extra'):
+        items.insert(min(st['extra'] - 1, len(items)), (EXTRA_KEY, list(ATOMS)))
+    for k, atoms in items:
+        L[k] = groups.setdefault(frozenset(atoms), set(atoms)) if st.get('share') else set(atoms)
+    return L
+
+
+def apply_relabel(K, st, state=lambda i: i):
+    """the caller changes the labelling of K (a live Kripke object, or a SimK) through a public route"""
+    r = st['route']
+    if r == 'labels.add':
+        K.labels(state(st['state'])).add(st['atom'])
+    elif r == 'labels.discard':
+        K.labels(state(st['state'])).discard(st['atom'])
+    elif r == 'dict.add':
+        K.labelling_function()[state(st['state'])].add(st['atom'])
+    elif r == 'dict.discard':
+        K.labelling_function()[state(st['state'])].discard(st['atom'])
+    elif r == 'dict.set':
+        K.labelling_function()[state(st['state'])] = set(st['atoms'])
+    elif r == 'replace':
+        K.replace_labelling_function(build_L(st, state))
+    else:
+        raise ValueError('unknown relabel route %r' % (r,))
+
+
+def gen_relabel(rng, si, sim):
+    s = rng.choice(sim.S)
+    cur = sim.L[s]
+    r = rng.random()
+    if r < 0.55:
+        a = rng.choice(ATOMS)
+        via = 'labels.' if rng.random() < 0.6 else 'dict.'
+        return {'kind': 'relabel', 's': si, 'route': via + ('discard' if a in cur else 'add'), 'state': s, 'atom': a}
+    if r < 0.7:
+        new = rng.choice([x for x in ([], ['p'], ['q'], ['p', 'q']) if set(x) != cur])
+        return {'kind': 'relabel', 's': si, 'route': 'dict.set', 'state': s, 'atoms': new}
+    while True:
+        L, changed = [], False
+        for t in sim.S:
+            if len(sim.S) > 1 and rng.random() < 0.1:
+                changed = changed or bool(sim.L[t])
+                continue                                      # omitted: the method installs an empty set
+            new = sorted(sim.L[t]) if rng.random() < 0.4 else sorted(a for a in ATOMS if rng.random() < 0.5)
+            changed = changed or set(new) != sim.L[t]
+            L.append([t, new])
+        if changed:
+            break
+    if rng.random() < 0.3:
+        rng.shuffle(L)
+    st = {'kind': 'relabel', 's': si, 'route': 'replace', 'L': L, 'share': rng.random() < 0.5}
+    if rng.random() < 0.4:
+        st['extra'] = rng.randint(1, len(L) + 1)              # position (1-based) of the non-state key in the dict
+    return st
+
+
+def gen_history(rng, desc, maxlen, p_text, p_textp, p_relabel=0.0):
     n = rng.randint(2, maxlen)
-    hist = []
-    while len(hist) < n:
+    hist, queue = [], []
+    sims = [SimK(s['S'], {int(k): v for k, v in s['L'].items()}, a)
+            for s, a in zip(desc['structs'], desc.get('alias') or [False] * len(desc['structs']))]
+    while len(hist) < n or queue:
+        calls = [st for st in hist if is_call(st)]
+        if queue:
+            hist.append(queue.pop(0))
+            continue
         r = rng.random()
-        if hist and r < 0.25:
-            hist.append(dict(rng.choice(hist)))                      # the same call again
-        elif hist and r < 0.35:
-            st = dict(rng.choice(hist))                              # same (structure, formula), other channel
+        if calls and r < p_relabel:
+            # mostly a structure that was queried already; afterwards re-issue earlier calls on it
+            si = rng.choice(calls)['s'] if rng.random() < 0.8 else rng.randrange(len(sims))
+            st = gen_relabel(rng, si, sims[si])
+            apply_relabel(sims[si], st)
+            hist.append(st)
+            earlier, seen = [], set()
+            for c in calls:
+                k = json.dumps(c, sort_keys=True)
+                if c['s'] == si and k not in seen:
+                    seen.add(k)
+                    earlier.append(c)
+            rng.shuffle(earlier)
+            k = rng.choice([0, 1, 1, 2, 2, 3])
+            queue = [dict(c) for c in earlier[:k]]
+            continue
+        r = rng.random()
+        if calls and r < 0.25:
+            hist.append(dict(rng.choice(calls)))                     # the same call again
+        elif calls and r < 0.35:
+            st = dict(rng.choice(calls))                             # same (structure, formula), other channel
             if not in_logic(st['logic'], desc['formulas'][st['f']]):
                 st['mode'] = 'obj:CTLS'
             else:
@@ -259,35 +455,113 @@ def ftext(f):
     return (' %s ' % op).join(w(g) for g in f[1:])
 
 
+def parser_lang(st):
+    """language of the parser that turns the text of a text step into a formula (None: not a text step)"""
+    m = st['mode']
+    if m.startswith('textsub'):
+        return m.split(':')[1]
+    if m.startswith('text') or m == 'pobj':
+        return st['logic']
+    return None
+
+
+def object_lang(st):
+    """language module of the formula object the entry point works on"""
+    m = st['mode']
+    if m.startswith('obj:') or m.startswith('textsub'):
+        return m.split(':')[1]
+    return st['logic']
+
+
 class Pool:
     """the caller's live objects of one history"""
 
     def __init__(self, desc):
         self.desc = desc
-        self.K = [kd_py(kd_from_json(s)) for s in desc['structs']]
+        alias = desc.get('alias') or [False] * len(desc['structs'])
+        objst = desc.get('objstates') or [False] * len(desc['structs'])
+        self.K, self.site, self.byid = [], [], []
+        for s, a, ob in zip(desc['structs'], alias, objst):
+            kd = kd_from_json(s)
+            site = byid = None
+            if ob:      # the same structure over fresh identity-hashed state objects; bijection int <-> object
+                ints = list(kd['S']) + [x for e in kd['R'] for x in e if x not in kd['S']]
+                site = {}
+                for i in ints:
+                    site.setdefault(i, SITE_CLASS[ob](i))
+                byid = {id(o): i for i, o in site.items()}
+                kd = {'S': [site[i] for i in kd['S']], 'S0': [site[i] for i in kd['S0']],
+                      'R': [(site[x], site[y]) for x, y in kd['R']], 'L': {site[i]: v for i, v in kd['L'].items()}}
+            self.K.append((kd_py_aliased if a else kd_py)(kd))
+            self.site.append(site)
+            self.byid.append(byid)
         self.F = [detuple(f) for f in desc['formulas']]
-        self.ks = [kripke_sx(K) for K in self.K]       # model presentation, read before any call
+        self.ks = [self.sx(i) for i in range(len(self.K))]       # model presentation; refreshed when the CALLER relabels
         self.base_k = [snap_kripke(K) for K in self.K]
         self.objs = {}
         self.base_f = {}
         self.texts = {}
+        self.Fobjs = {}
 
-    def obj(self, fi, lang):
-        k = (fi, lang)
+    def state(self, si, i):
+        """the state of structure si that the description calls i"""
+        return i if self.site[si] is None else self.site[si][i]
+
+    def num(self, si, o):
+        """the int of the description for state object o of structure si, by IDENTITY (None: not one of its states)"""
+        if self.site[si] is None:
+            return o
+        i = self.byid[si].get(id(o))
+        return i if i is not None and self.site[si][i] is o else None
+
+    def sx(self, si):
+        """model presentation (over ints) of structure si as it is now"""
+        if self.site[si] is None:
+            return kripke_sx(self.K[si])
+
+        def num(o):
+            i = self.num(si, o)
+            if i is None:
+                raise RuntimeError('structure %d contains the object %r that is not one of its states' % (si, o))
+            return i
+        return kripke_sx(self.K[si], num)
+
+    def obj(self, fi, lang, parsed=False):
+        k = (fi, lang, 'parsed') if parsed else (fi, lang)
         if k not in self.objs:
-            self.objs[k] = to_py(self.F[fi], lang_module(lang))
-            self.base_f[k] = snap_formula(self.objs[k])
+            if parsed:
+                o = shared_parser(lang)(self.text(fi, lang))
+                if tree_of(o) != self.F[fi]:
+                    raise RuntimeError('parsed object of %r in %s has tree %r' % (self.F[fi], lang, tree_of(o)))
+            else:
+                o = to_py(self.F[fi], lang_module(lang))
+            self.objs[k] = o
+            self.base_f[k] = snap_formula(o)
         return self.objs[k]
 
-    def text(self, fi, logic):
-        k = (fi, logic)
+    def text(self, fi, plang):
+        """the text of formula fi, validated by parsing it back with the parser of language plang"""
+        k = (fi, plang)
         if k not in self.texts:
             t = ftext(self.F[fi])
-            back = call(lambda: tree_of(shared_parser(logic)(t)))
+            back = call(lambda: tree_of(shared_parser(plang)(t)))
             if back != ('ok', self.F[fi]):
-                raise RuntimeError('text form %r of %r does not parse back in %s: %r' % (t, self.F[fi], logic, back))
+                raise RuntimeError('text form %r of %r does not parse back in %s: %r' % (t, self.F[fi], plang, back))
             self.texts[k] = t
         return self.texts[k]
+
+    def fair_arg(self, st):
+        outer, inner = FFORMS[st.get('Fform', 'ls')]
+        si = st['s']
+
+        def make():
+            return outer(inner(self.state(si, i) for i in P) for P in st['F'])
+        if not st.get('Fshared'):
+            return make()
+        k = (json.dumps(st['F']), st.get('Fform', 'ls'), None if self.site[si] is None else si)
+        if k not in self.Fobjs:
+            self.Fobjs[k] = make()
+        return self.Fobjs[k]
 
     def changes(self):
         out = []
@@ -301,7 +575,15 @@ class Pool:
                 out.append('formula object %s changed (%s)' % (k, describe_change(self.base_f[k], s)))
         return out
 
+    def relabel(self, st):
+        """the CALLER changes the labelling of a pool structure: new presentation, new baseline"""
+        i = st['s']
+        apply_relabel(self.K[i], st, lambda x: self.state(i, x))
+        self.ks[i] = self.sx(i)
+        self.base_k[i] = snap_kripke(self.K[i])
+
     def model_cmd(self, st):
+        """the model's view of a call, with the presentation of the structure that is current NOW"""
         f = self.F[st['f']]
         ks = self.ks[st['s']]
         logic = st['logic']
@@ -310,27 +592,45 @@ class Pool:
                 return ['ctl', ks, fsx(f)]
             if logic == 'LTL':
                 return ['ltl', ks, fsx(f)]
-            lang = st['mode'][4:] if st['mode'].startswith('obj:') else 'CTLS'
-            return ['ctls', lang, ks, fsx(f)]
+            return ['ctls', object_lang(st), ks, fsx(f)]
         return [MODEL_F[logic], ks, fsx(f), [sorted(P) for P in st['F']]]
 
 
+RELABEL_RES = ['ok', 'relabel']
+
+
+def snap_F(F):
+    """container types, order and contents of a fairness argument"""
+    return [type(F).__name__, [[type(P).__name__, [x if isinstance(x, int) else '%r @%x' % (x, id(x)) for x in sorted(P, key=repr)]]
+                               for P in F]]
+
+
 def exec_step(pool, st, kept):
-    """one call of the real library on the caller's objects; observation = result + what changed"""
+    """one step on the caller's objects; observation = result + what changed; also the model command of the step
+    (None for a relabel), produced BEFORE the call from the presentation that is current at this step"""
+    if not is_call(st):
+        pool.relabel(st)
+        return {'res': list(RELABEL_RES), 'notes': pool.changes(), 'labelling_now': sx_str(pool.ks[st['s']][2])}, None
+    cmd = sx_str(pool.model_cmd(st))
     L = lang_module(st['logic'])
     K = pool.K[st['s']]
     mode = st['mode']
+    kw = {}
     if mode.startswith('text'):
-        arg = pool.text(st['f'], st['logic'])
+        pl = parser_lang(st)
+        arg = pool.text(st['f'], pl)
+        if mode == 'textp' or mode.startswith('textsubp:'):
+            kw['parser'] = shared_parser(pl)                 # the caller's long-lived parser object of that language
+        elif mode == 'textn' or mode.startswith('textsub:'):
+            kw['parser'] = lang_module(pl).Parser()          # a parser object made for this call
+    elif mode == 'pobj':
+        arg = pool.obj(st['f'], st['logic'], parsed=True)
     else:
         arg = pool.obj(st['f'], mode[4:] or st['logic'])
-    kw = {}
     Fsnap = None
     if st['F'] is not None:
-        kw['F'] = [set(P) for P in st['F']]
-        Fsnap = [set(P) for P in kw['F']]
-    if mode == 'textp':
-        kw['parser'] = shared_parser(st['logic'])
+        kw['F'] = pool.fair_arg(st)
+        Fsnap = snap_F(kw['F'])
     r = guarded(lambda: L.modelcheck(K, arg, **kw))
     notes = []
     if r[0] == 'ok':
@@ -338,35 +638,49 @@ def exec_step(pool, st, kept):
         if type(v) is not set:
             res = ['err', 'other:not-a-set:' + type(v).__name__]
         else:
-            res = ['ok', sorted(v)]
+            if pool.site[st['s']] is None:
+                res = ['ok', sorted(v)]
+            else:       # back to the ints of the description through the bijection, BY IDENTITY
+                mapped = [(pool.num(st['s'], e), e) for e in v]
+                foreign = sorted(repr(e) for i, e in mapped if i is None)
+                res = ['ok', sorted(i for i, e in mapped if i is not None)]
+                if foreign:
+                    res[1] += ['not a state: ' + x for x in foreign]
+                    notes.append("result contains an object that is not a state of the caller's structure: %s (the states are "
+                                 "plain objects compared by identity)" % ', '.join(foreign))
             if any(v is e for e in kept):
                 notes.append('the returned set IS the object returned by an earlier call')
             if any(id(v) in internal_ids(Kx) for Kx in pool.K):
                 notes.append('the returned set IS an internal object of a caller structure')
+            if Fsnap is not None and any(v is P for P in kw['F']):
+                notes.append('the returned set IS a member of the fairness argument')
             kept.append(v)
     else:
         res = list(r)
     notes += pool.changes()
-    if Fsnap is not None and (kw['F'] != Fsnap):
-        notes.append('the fairness argument F was modified: %r -> %r' % (Fsnap, kw['F']))
-    return {'res': res, 'notes': notes}
+    if Fsnap is not None and snap_F(kw['F']) != Fsnap:
+        notes.append('the fairness argument F was modified: %s -> %s' % (Fsnap, snap_F(kw['F'])))
+    return {'res': res, 'notes': notes}, cmd
 
 
 def exec_history(desc, hist):
+    """returns the pool, the observations and the model commands (s-expression text; None for relabel steps) of the
+    executed steps"""
     pool = Pool(desc)
     kept = []
-    obs = []
+    obs, cmds = [], []
     for st in hist:
-        o = exec_step(pool, st, kept)
+        o, c = exec_step(pool, st, kept)
         obs.append(o)
+        cmds.append(c)
         if o['notes']:
             break        # the caller's objects are no longer the ones the model was given
-    return pool, obs
+    return pool, obs, cmds
 
 
 def exec_history_fresh(desc, hist, prelude=()):
     """the same in a fresh interpreter (no module-level state from earlier histories of this run); `prelude` =
-    earlier (pool, history) episodes to execute first in that interpreter"""
+    earlier (pool, history) episodes to execute first in that interpreter.  Returns (observations, model commands)"""
     import subprocess
     p = subprocess.run([sys.executable, os.path.abspath(__file__), '--exec'],
                        input=json.dumps({'pool': desc, 'hist': hist, 'prelude': list(prelude)}),
@@ -374,41 +688,65 @@ def exec_history_fresh(desc, hist, prelude=()):
     lines = [l for l in p.stdout.split('\n') if l.startswith('OBS ')]
     if not lines:
         raise RuntimeError('fresh interpreter failed: rc=%s %s' % (p.returncode, p.stderr[-500:]))
-    return json.loads(lines[-1][4:])
+    j = json.loads(lines[-1][4:])
+    return j['obs'], j['cmds']
+
+
+MODEL_CACHE = {}
+
+
+def expectations(cmds):
+    """model answers of a list of commands (None = relabel step), memoised over the run"""
+    todo = sorted({c for c in cmds if c is not None and c not in MODEL_CACHE})
+    for c, o in zip(todo, model_batch_parallel(todo)):
+        MODEL_CACHE[c] = exp_of(o)
+    return [list(RELABEL_RES) if c is None else MODEL_CACHE[c] for c in cmds]
 
 
 def step_fails(o, exp):
     return bool(o['notes']) or list(o['res']) != list(exp)
 
 
-def shrink(desc, hist, exps, earlier):
+def relabels_and_last(hist):
+    """the failing call 'alone': only the caller's own relabelling of that structure before it"""
+    last = hist[-1]
+    return [st for st in hist[:-1] if not is_call(st) and st['s'] == last['s']] + [last]
+
+
+def shrink(desc, hist, earlier):
     """hist[-1] fails in the main process.  Re-run in fresh interpreters: first the history alone, then (module-level
     state) preceded by the last 1, 2, 4, ... 64 earlier episodes of this run; then drop prelude episodes and steps
-    while the last step still fails (within a time budget).  Returns (prelude, history, expectations, fresh observations, reproduced?)"""
+    (calls and relabels) while the last step still fails (within a time budget).  The expectations of every candidate
+    are re-derived from the model commands that the fresh interpreter produced while executing it (dropping a
+    relabel changes what later steps must return).
+    Returns (prelude, history, expectations, fresh observations, reproduced?)"""
     t_end = time.time() + SHRINK_BUDGET_S
 
-    def fails(pre, h, e):
+    def fails(pre, h):
         if time.time() > t_end:          # out of budget: keep what we have
-            return False, None
-        o = exec_history_fresh(desc, h, pre)
-        return (len(o) == len(h) and step_fails(o[-1], e[-1])), o
+            return False, None, None
+        o, c = exec_history_fresh(desc, h, pre)
+        if len(o) != len(h):
+            return False, o, None
+        e = expectations(c)
+        return step_fails(o[-1], e[-1]), o, e
     pre = []
-    ok, obs = fails(pre, hist, exps)
+    ok, obs, exps = fails(pre, hist)
     k = 1
     while not ok and earlier and k <= 64:
         pre = [{'pool': d, 'hist': h} for d, h in earlier[-k:]]
-        ok, obs = fails(pre, hist, exps)
+        ok, obs, exps = fails(pre, hist)
         if k >= len(earlier):
             break
         k *= 2
     if not ok:
-        return [], hist, exps, obs, False
+        return [], hist, None, obs, False
     i = 0
     while i < len(pre):                       # whole earlier episodes
         cand = pre[:i] + pre[i + 1:]
-        ok, o = fails(cand, hist, exps)
+        ok, o, e = fails(cand, hist)
         if ok:
-            pre, obs = cand, o
+            pre, obs, exps = cand, o, e
         else:
             i += 1
     for ep in range(len(pre)):                # steps of the remaining earlier episodes
@@ -416,27 +754,52 @@ def shrink(desc, hist, exps, earlier):
         while i < len(pre[ep]['hist']) and sum(len(e['hist']) for e in pre) <= 60:
             cand = [dict(e) for e in pre]
             cand[ep] = {'pool': pre[ep]['pool'], 'hist': pre[ep]['hist'][:i] + pre[ep]['hist'][i + 1:]}
-            ok, o = fails(cand, hist, exps)
+            ok, o, e = fails(cand, hist)
             if ok:
-                pre, obs = cand, o
+                pre, obs, exps = cand, o, e
             else:
                 i += 1
     pre = [e for e in pre if e['hist']]
-    cur, cexp = list(hist), list(exps)
+    cur = list(hist)
     i = 0
     while i < len(cur) - 1:                   # steps of the failing history itself
-        cand, candexp = cur[:i] + cur[i + 1:], cexp[:i] + cexp[i + 1:]
-        ok, o = fails(pre, cand, candexp)
+        cand = cur[:i] + cur[i + 1:]
+        ok, o, e = fails(pre, cand)
         if ok:
-            cur, cexp, obs = cand, candexp, o
+            cur, obs, exps = cand, o, e
         else:
             i += 1
-    return pre, cur, cexp, obs, True
+    return pre, cur, exps, obs, True
+
+
+def F_str(st):
+    if st['F'] is None:
+        return ''
+    form = st.get('Fform', 'ls')
+    return ', F=%s%s%s' % (st['F'], '' if form == 'ls' else ' as %s of %ss' % tuple(t.__name__ for t in FFORMS[form]),
+                           ' (one shared object)' if st.get('Fshared') else '')
+
+
+def kname(desc, si):
+    """K2, or K2[Site] / K2[SiteH] when state i of the description is the object Site(i) / SiteH(i)"""
+    ob = objstates_of(desc, si)
+    return 'K%d%s' % (si, '[%s]' % SITE_CLASS[ob].__name__ if ob else '')
 
 
 def step_str(desc, st):
-    return '%s.modelcheck(K%d, %s %s%s)' % (st['logic'], st['s'], st['mode'], fstr(detuple(desc['formulas'][st['f']])),
-                                            '' if st['F'] is None else ', F=%s' % st['F'])
+    K = kname(desc, st['s'])
+    if not is_call(st):
+        r = st['route']
+        if r == 'replace':
+            return 'caller: %s.replace_labelling_function(%s%s%s)' % (
+                K, {k: v for k, v in st['L']}, ', equal sets shared' if st.get('share') else '',
+                ', + non-state key at position %d' % st['extra'] if st.get('extra') else '')
+        if r == 'dict.set':
+            return 'caller: %s.labelling_function()[%s] = set(%s)' % (K, st['state'], st['atoms'])
+        acc = 'labels(%s)' % st['state'] if r.startswith('labels.') else 'labelling_function()[%s]' % st['state']
+        return 'caller: %s.%s.%s(%r)' % (K, acc, r.split('.')[1], st['atom'])
+    f = detuple(desc['formulas'][st['f']])
+    return '%s.modelcheck(%s, %s %s%s)' % (st['logic'], K, st['mode'], repr(ftext(f)) if st['mode'].startswith('text') else fstr(f), F_str(st))
 
 
 def exp_of(o):
@@ -444,55 +807,84 @@ def exp_of(o):
     return [m[0], m[1]]
 
 
+def call_key(st):
+    return (st['logic'], st['s'], st['f'], json.dumps(st['F']))
+
+
 # ----------------------------------------------------------------------------------------
 def run(R):
-    R.rule = ('histories of modelcheck calls over a fresh random pool per history (4 structures <= 4 states, labels over {p,q}; '
-              '8 formulas: 2 CTL, 2 LTL, 3 genuine CTL* with a quantifier nested below a quantifier, 1 in all three logics); '
-              'step = (logic, structure, formula, object | object of another language module | text | text with an explicit shared parser, '
-              'F in {None, [], 1-3 random state sets}); 25% of the steps repeat an earlier call, 10% repeat it through the other channel, '
-              '4% out-of-logic objects (TypeError); after every step deep snapshots (contents + identities) of all 4 structures and all '
-              'formula objects, the result compared with the extracted model on that call in isolation (with F: the faithful model of the '
-              "library's reduction); non-trivial = a history in which the same (structure, formula) is queried at least twice with other "
-              'calls in between and a CTL* or fairness call occurred; distinct by (pool, history)')
+    R.rule = ('histories of steps over a fresh random pool per history (4 structures <= 4 states, labels over {p,q}, 25% installed with '
+              'equal label sets sharing one set object, 30% with states that are plain objects compared by identity instead of ints (half '
+              'Site(i): default address hash, called with F=None only; half SiteH(i): hashed like the int i, so that iteration orders - on '
+              'which results with F= depend through the known fair-SCC gate defect - are those of the ints) - the model stays on ints, arguments and results go through the bijection BY IDENTITY and a result element that is not one of the '
+              'own state objects of the structure is a violation; 8 formulas: 2 CTL, 2 LTL, 3 genuine CTL* with a quantifier nested below a '
+              'quantifier, 1 in all three logics); step = modelcheck call (logic, structure, formula, channel, F) or a RELABEL by the caller; '
+              'channel = object | object of another language module | object obtained from a parser and kept | text | text with parser= '
+              'a shared / a fresh parser object of the called logic | (CTLS.modelcheck, formula in the sub-logic) text with parser= a '
+              'shared / fresh LTL or CTL parser; F in {None, [], 1-3 random state sets} as list/tuple of sets/frozensets, 30% one container '
+              'object reused by all calls with that F; 25% of the call steps repeat an earlier call, 10% repeat it through the other channel, '
+              '4% out-of-logic objects (TypeError); relabel (quick 12% / thorough 5% of the steps) = the caller edits the labelling of a pool '
+              'structure through K.labels(s) (add/discard), K.labelling_function() (add/discard/assign) or K.replace_labelling_function '
+              '(new dict; shared set objects, omitted states, non-state key), always an effective change, usually of a structure already '
+              'queried and followed by 0-3 re-issued earlier calls on it; after a relabel the model presentation and the snapshot baseline of that '
+              'structure are re-read; after every step deep snapshots (contents + identities) of all 4 structures and all formula objects, '
+              'the result compared with the extracted model on that call in isolation on the CURRENT presentation (with F: the faithful model of '
+              "the library's reduction); every text is also parsed by the MODEL parser of the language whose parser is used and must yield the "
+              'formula the model checker is given; non-trivial = a history in which the same (structure, formula) is queried at least twice with '
+              'other steps in between and a CTL* or fairness call occurred; distinct by (pool, history)')
     rng = R.rng
     if R.thorough:
-        n_hist, maxlen, p_text, p_textp = 3000, 40, 0.06, 0.2
+        n_hist, maxlen, p_text, p_textp, p_relabel = 2500, 40, 0.08, 0.2, 0.05
     else:
-        n_hist, maxlen, p_text, p_textp = 150, 12, 0.2, 0.12
+        n_hist, maxlen, p_text, p_textp, p_relabel = 320, 12, 0.2, 0.16, 0.12
     runs = []
-    cmd_index = {}
-    cmds = []
+    all_cmds = set()
+    parse_checks = {}
     for h in range(n_hist):
         desc = gen_pool(rng)
         desc = json.loads(json.dumps(desc))          # exactly what a replay will see
-        hist = gen_history(rng, desc, maxlen, p_text, p_textp)
+        hist = gen_history(rng, desc, maxlen, p_text, p_textp, p_relabel)
+        hist = json.loads(json.dumps(hist))
         if TIMEOUTS[0] >= 3:
             R.cov['stopped_after_call_timeouts'] = TIMEOUTS[0]
             break
-        pool, obs = exec_history(desc, hist)
-        keys = []
-        for st in hist[:len(obs)]:
-            c = pool.model_cmd(st)
-            k = sx_str(c)
-            if k not in cmd_index:
-                cmd_index[k] = len(cmds)
-                cmds.append(c)
-            keys.append(cmd_index[k])
-        runs.append((desc, hist, obs, keys))
-    outs = model_batch_parallel(cmds)
-    R.cov['model_commands_distinct'] = len(cmds)
+        pool, obs, cmds = exec_history(desc, hist)
+        all_cmds.update(c for c in cmds if c is not None)
+        for (fi, plang), t in pool.texts.items():
+            parse_checks[sx_str(['parse', plang, Q(t)])] = (plang, t, pool.F[fi])
+        runs.append((desc, hist, obs, cmds))
+    # the text given to a text call denotes, for the MODEL parser of the language whose parser is used, the formula
+    # the model checker is asked about (a failure here is a defect of this check's printer, not of the library)
+    pk = sorted(parse_checks)
+    for k, o in zip(pk, model_batch_parallel(pk)):
+        plang, t, f = parse_checks[k]
+        if o[0] != 'ok' or fparse(o[1]) != f:
+            raise RuntimeError('model parser %s reads %r as %s, expected %r' % (plang, t, sx_str(o), f))
+    R.cov['texts_validated_by_model_parser'] = len(pk)
+    expectations(sorted(all_cmds))
+    R.cov['model_commands_distinct'] = len(all_cmds)
     shrunk = 0
-    for ri, (desc, hist, obs, keys) in enumerate(runs):
-        exps = [exp_of(outs[k]) for k in keys]
+    for ri, (desc, hist, obs, cmds) in enumerate(runs):
+        exps = expectations(cmds)
         R.evaluations += len(obs)
         R.count('histories')
         R.count('len_%02d-%02d' % ((len(hist) - 1) // 5 * 5 + 1, (len(hist) - 1) // 5 * 5 + 5))
         bad = None
         for j, (st, o, e) in enumerate(zip(hist, obs, exps)):
-            R.count('logic_' + st['logic'])
-            R.count('mode_' + st['mode'])
-            R.count('F_' + ('None' if st['F'] is None else 'empty' if not st['F'] else 'sets'))
-            R.count('result_' + (o['res'][0] if o['res'][0] == 'ok' else o['res'][1]))
+            if is_call(st):
+                R.count('logic_' + st['logic'])
+                R.count('mode_' + st['mode'])
+                R.count('F_' + ('None' if st['F'] is None else 'empty' if not st['F'] else 'sets'))
+                if st['F'] is not None:
+                    R.count('Fform_' + st.get('Fform', 'ls') + ('_shared' if st.get('Fshared') else ''))
+                R.count('result_' + (o['res'][0] if o['res'][0] == 'ok' else o['res'][1]))
+                if objstates_of(desc, st['s']):
+                    cls = SITE_CLASS[objstates_of(desc, st['s'])].__name__
+                    R.count('calls_on_structures_with_%s_states' % cls)
+                    if o['res'][0] == 'ok' and o['res'][1]:
+                        R.count('calls_on_structures_with_%s_states_nonempty_result' % cls)
+            else:
+                R.count('relabel_' + st['route'] + ('_shared_sets' if st.get('share') else '') + ('_nonstate_key' if st.get('extra') else ''))
             if step_fails(o, e):
                 bad = j
                 break
@@ -502,21 +894,33 @@ def run(R):
             if len(R.violations) >= 25:
                 break
             continue
-        # evidence: repeated (structure, formula) with other calls in between + a CTL* / fairness call
+        # evidence: repeated (structure, formula) with other steps in between + a CTL* / fairness call
         seen = {}
         rep = False
         for j, st in enumerate(hist):
+            if not is_call(st):
+                continue
             k = (st['s'], st['f'])
             if k in seen and j - seen[k] >= 2:
                 rep = True
             seen.setdefault(k, j)
-        same_call = {}
+        same_call, epoch, last = {}, {}, {}
         for st, o in zip(hist, obs):
-            same_call.setdefault(json.dumps([st['logic'], st['s'], st['f'], st['F']]), []).append(o['res'])
+            if not is_call(st):
+                epoch[st['s']] = epoch.get(st['s'], 0) + 1
+                continue
+            ck = call_key(st)
+            same_call.setdefault(ck + (epoch.get(st['s'], 0),), []).append(o['res'])
+            if ck in last and last[ck][0] != epoch.get(st['s'], 0):
+                R.count('requery_after_relabel')
+                if last[ck][1] != o['res']:
+                    R.count('requery_after_relabel_with_another_result')
+            last[ck] = (epoch.get(st['s'], 0), o['res'])
         nrep = sum(1 for v in same_call.values() if len(v) > 1)
         R.count('calls_executed_more_than_once', nrep)
+        calls = [st for st in hist if is_call(st)]
         star = any(st['F'] is not None or (st['logic'] == 'CTLS' and not is_ctl_state(detuple(desc['formulas'][st['f']])))
-                   for st in hist)
+                   for st in calls)
         if rep and star:
             R.nontriv((desc, hist))
             R.sample({'structures': desc['structs'], 'history': [step_str(desc, st) for st in hist],
@@ -525,38 +929,51 @@ def run(R):
 
 def report(R, desc, hist, obs, exps, j, do_shrink, earlier):
     st, o, e = hist[j], obs[j], exps[j]
-    # another execution of the same call in this history with a different observation?
-    other = [i for i in range(j) if (hist[i]['logic'], hist[i]['s'], hist[i]['f'], hist[i]['F']) ==
-             (st['logic'], st['s'], st['f'], st['F']) and obs[i]['res'] != o['res']]
+    # another execution of the same call in this history (no relabel of that structure in between) with a different observation?
+    other = []
+    for i in range(j - 1, -1, -1):
+        if not is_call(hist[i]):
+            if hist[i]['s'] == st['s']:
+                break
+        elif call_key(hist[i]) == call_key(st) and obs[i]['res'] != o['res']:
+            other.append(i)
     data = {'pool': desc, 'history': hist[:j + 1], 'expected': exps[:j + 1], 'failing_step': j,
             'step': step_str(desc, st), 'impl': o['res'], 'model_in_isolation': e, 'notes': o['notes'],
             'same_call_earlier_in_history_gave': [[i, obs[i]['res']] for i in other]}
     data['prelude'] = []
     if do_shrink:
         try:
-            pre, mh, mexp, mobs, ok = shrink(desc, hist[:j + 1], exps[:j + 1], earlier)
+            pre, mh, mexp, mobs, ok = shrink(desc, hist[:j + 1], earlier)
             data['reproduced_in_fresh_interpreter'] = ok
             if ok:
                 data['prelude'], data['history'], data['expected'], data['failing_step'] = pre, mh, mexp, len(mh) - 1
                 data['minimal_history'] = (['(earlier pool %d) %s' % (i, step_str(e['pool'], s)) for i, e in enumerate(pre) for s in e['hist']]
                                            + [step_str(desc, s) for s in mh])
                 data['minimal_observations'] = mobs
-                alone = exec_history_fresh(desc, mh[-1:])
-                data['failing_call_alone_in_fresh_interpreter'] = alone[-1]
+                data['impl'], data['model_in_isolation'] = mobs[-1]['res'], mexp[-1]
+                ah = relabels_and_last(mh)
+                aobs, acmds = exec_history_fresh(desc, ah)
+                data['failing_call_alone_in_fresh_interpreter'] = dict(aobs[-1], expected=expectations(acmds)[len(aobs) - 1],
+                                                                       steps=[step_str(desc, s) for s in ah])
         except Exception as ex:  # noqa
             data['shrink_failed'] = repr(ex)
-    ncalls = len(data['history']) - 1 + sum(len(e['hist']) for e in data['prelude'])
+    else:
+        data['not_shrunk'] = ('only the first 3 failing histories of a run are re-run in fresh interpreters and shrunk; if this one depends on '
+                              'module-level state left by EARLIER histories of the run, its replay alone does not reproduce it')
+    ncalls = (sum(1 for s in data['history'][:-1] if is_call(s))
+              + sum(1 for e in data['prelude'] for s in e['hist'] if is_call(s)))
     alone = data.get('failing_call_alone_in_fresh_interpreter')
+    res, e = data['impl'], data['model_in_isolation']
     if o['notes']:
-        what = 'modelcheck modified the caller\'s objects / leaked an object: ' + '; '.join(o['notes'])[:400]
-    elif ncalls >= 1 and data.get('reproduced_in_fresh_interpreter') and alone is not None and not step_fails(alone, e):
-        what = ('history dependence: %s returns %s after %d earlier call(s); the model and the same call alone in a fresh interpreter give %s'
-                % (data['step'], o['res'], ncalls, e))
+        what = 'modelcheck modified the caller\'s objects / leaked or invented an object: ' + '; '.join(o['notes'])[:400]
+    elif ncalls >= 1 and data.get('reproduced_in_fresh_interpreter') and alone is not None and not step_fails(alone, alone['expected']):
+        what = ('history dependence: %s returns %s after %d earlier call(s); the model and the same call alone%s in a fresh interpreter give %s'
+                % (data['step'], res, ncalls, ' (after only the caller\'s own relabelling of that structure)' if len(alone['steps']) > 1 else '', e))
     elif other:
         what = 'history dependence: two executions of %s in one history differ (%s vs %s; model %s)' % (
-            data['step'], obs[other[0]]['res'], o['res'], e)
+            data['step'], obs[other[0]]['res'], o['res'], exps[j])
     else:
-        what = 'result of %s differs from the proved model on the same arguments: %s vs %s' % (data['step'], o['res'], e)
+        what = 'result of %s differs from the proved model on the same arguments: %s vs %s' % (data['step'], res, e)
         if data.get('reproduced_in_fresh_interpreter') is False:
             what += ' (not reproduced in a fresh interpreter, even after the last 64 histories of this run)'
     R.violation(what, data)
@@ -566,17 +983,19 @@ def replay(R, data):
     d = data['data']
     desc, hist = d['pool'], d['history']
     for e in d.get('prelude', []):
-        _, o = exec_history(e['pool'], e['hist'])
+        _, o, _ = exec_history(e['pool'], e['hist'])
         for st, x in zip(e['hist'], o):
             print('earlier %-60s impl=%s' % (step_str(e['pool'], st), x['res']))
-    pool, obs = exec_history(desc, hist)
-    outs = model_batch([pool.model_cmd(st) for st in hist[:len(obs)]])
+    pool, obs, cmds = exec_history(desc, hist)
     bad = False
-    for j, (st, o, m) in enumerate(zip(hist, obs, outs)):
-        e = exp_of(m)
+    for j, (st, o, e) in enumerate(zip(hist, obs, expectations(cmds))):
         f = step_fails(o, e)
         bad = bad or f
-        print('step %2d %-60s impl=%s model=%s %s %s' % (j, step_str(desc, st), o['res'], e, '; '.join(o['notes']), '<-- VIOLATION' if f else ''))
+        if is_call(st):
+            print('step %2d %-60s impl=%s model=%s %s %s' % (j, step_str(desc, st), o['res'], e, '; '.join(o['notes']), '<-- VIOLATION' if f else ''))
+        else:
+            print('step %2d %-60s labelling now %s %s %s' % (j, step_str(desc, st), o.get('labelling_now'), '; '.join(o['notes']),
+                                                             '<-- VIOLATION' if f else ''))
     if bad:
         R.violation('replayed: history violates purity / differs from the model', d)
 
@@ -585,5 +1004,5 @@ if __name__ == '__main__' and len(sys.argv) > 1 and sys.argv[1] == '--exec':
     _j = json.loads(sys.stdin.read())
     for _e in _j.get('prelude', []):
         exec_history(_e['pool'], _e['hist'])
-    _pool, _obs = exec_history(_j['pool'], _j['hist'])
-    print('OBS ' + json.dumps(_obs))
+    _pool, _obs, _cmds = exec_history(_j['pool'], _j['hist'])
+    print('OBS ' + json.dumps({'obs': _obs, 'cmds': _cmds}))
